@@ -97,6 +97,8 @@ def r_cond(c, kinds):
     if c[0] == "ifeq":
         _, v, t = c
         if t[0] == "v":
+            if kinds.k.get(t[1], "ref") == "val":
+                return "if *%s == %s" % (v, t[1])
             return "if %s == %s" % (v, t[1])            # two references
         return "if *%s == %s" % (v, dl.rust_term(t, kinds))
     return dl.rust_cond(c, kinds)
@@ -273,9 +275,10 @@ def expand_body(body, feats=None):
         n[0] += 1
         return "zq%d" % n[0]
     bound, out = set(), []
+    attached = set()      # values bound by a let / if-let attached to an earlier clause
     for it in body:
         if it[0] == "clause":
-            here, args, conds, late = [], [], [], []
+            here, args, conds, late, seen = [], [], [], [], set()
             for t in it[2]:
                 if t[0] == "w":
                     feats["wildcard"] += 1
@@ -288,13 +291,16 @@ def expand_body(body, feats=None):
                     if t[1][0] == "bind":
                         late.append(t[1][1])
                 elif t[0] == "v":
-                    if t[1] in here:
+                    if t[1] in here or (t[1] in attached and t[1] in seen):
+                        # (a variable bound by an attached condition is one join key; its further occurrences in the
+                        # clause are written as equality tests so that the macro has nothing left to desugar)
                         v = fresh()
                         feats["repeated_var"] += 1
                         args.append(("v", v))
                         conds.append(("ifeq", v, t))
                     else:
                         args.append(t)
+                        seen.add(t[1])
                         if t[1] not in bound:
                             here.append(t[1])
                 elif t[0] == "f" and any(x in here for x in t[2]):
@@ -310,6 +316,7 @@ def expand_body(body, feats=None):
             bound |= set(here) | set(late)
             for c in it[3]:
                 bound |= set(cond_binds(c))
+                attached |= set(cond_binds(c))
         elif it[0] == "neg":
             feats["neg"] += 1
             out.append(("agg", None, "not", [], it[1], [("w",) if t[0] == "w" else ("k", t) for t in it[2]]))
@@ -357,7 +364,6 @@ def program_features(p):
                 f["for"] += 1
             elif it[0] == "cond":
                 f[{"if": "if", "let": "let", "iflet": "if_let"}[it[1][0]]] += 1
-    heads_of = set()
     for r in p["rules"]:
         if not r["body"]:
             f["fact"] += 1
@@ -365,16 +371,18 @@ def program_features(p):
             f["multi_head"] += 1
         walk(r["body"], 0)
         hs = {h[0] for h in r["heads"]}
-        heads_of |= hs
         if hs & set(rule_body_rels(r["body"])):
             f["recursive_rule"] += 1
-        cl = [it for it in r["body"] if it[0] == "clause"]
         if len(r["body"]) >= 2 and r["body"][0][0] == "clause" and r["body"][1][0] == "clause" and r["body"][1][3]:
             f["cond_on_second_clause"] += 1
-        del cl
+    if shape_attached_repeat(p):
+        f["repeated_var_of_attached_binding"] += 1
+    if shape_attached_let_simple_join(p):
+        f["attached_let_on_first_clause_feeding_second"] += 1
     ef = Counter()
-    expand_program(p, ef)
-    # expansion-derived counts are per expanded rule and head; report presence-weighted counts
+    for r in p["rules"]:         # counted per conjunction of the disjunction product
+        for conj in disj_product(r["body"]):
+            expand_body(conj, ef)
     for k, v in ef.items():
         f[k] += v
     return f
@@ -603,19 +611,18 @@ class SGen:
             return ("gen", x, g, [rng.choice(scope) for _ in range(dl.GENS[g][1])]), [x]
         if not self.lower:
             return ("cond", self.cond_if(scope)), []
+        if rng.random() < 0.75:
+            name, arity, _ = rng.choice(self.lower)
+            return ("neg", name, [self.neg_arg(scope) for _ in range(arity)]), []
         self.bound = list(scope)
         for _ in range(6):
             it = gen_dl.gen_agg_item(rng, self, self.lower)
-            if not (it[0] == "agg" and it[2] == "count"):      # usize results need a conversion; not C07's subject
-                break
-        else:
-            it = ("neg", self.lower[0][0], [("w",)] * self.lower[0][1])
-        if it[0] == "neg" or rng.random() < 0.75:
-            if it[0] != "neg":
-                name, arity, _ = rng.choice(self.lower)
-                it = ("neg", name, [self.neg_arg(scope) for _ in range(arity)])
-            return it, []
-        return it, [it[1]]
+            if it[0] == "agg" and it[2] != "count":      # usize results need a conversion; not C07's subject
+                return it, [it[1]]
+            if it[0] == "neg":
+                return it, []
+        name, arity, _ = self.lower[0]
+        return ("neg", name, [("w",)] * arity), []
 
     def neg_arg(self, scope):
         u = self.rng.random()
@@ -664,8 +671,6 @@ class SGen:
                 it, new = self.item(sc, depth + 1)
                 items.append(it)
                 sc += new
-                if not exports and items[0][0] != "clause" and rng.random() < 0.3:
-                    pass
             alts.append(items)
         # `a, if e | b` would parse `e | b` as one expression: protect a non-final alternative that ends in an
         # expression by parentheses (a single-alternative disjunction)
@@ -738,3 +743,48 @@ def gen_program(rng, opts=None):
         rules.append(dict(heads=hs, body=[]))
     rng.shuffle(rules)
     return dict(rels=rels, rules=rules, level=level)
+
+
+# ------------------------------------------------------------------ shapes of two compile-time defects of the macro
+
+def shape_attached_repeat(p):
+    """a variable bound by a let / if-let ATTACHED to a clause (a value; rule_desugar_repeated_vars does not record it
+    as grounded) occurs twice as a plain argument of a later clause: the pass emits `if y_ == y` with y_: &T, y: T"""
+    for r in p["rules"]:
+        for conj in disj_product(r["body"]):
+            grounded, vals = set(), set()
+            for it in conj:
+                if it[0] == "clause":
+                    vs = [t[1] for t in it[2] if t[0] == "v"]
+                    for x in set(vs):
+                        if x in vals and x not in grounded and vs.count(x) > 1:
+                            return True
+                    grounded |= set(vs)
+                    for c in it[3]:
+                        if c[0] in ("let", "iflet"):
+                            vals.add(c[1])
+                elif it[0] == "cond":
+                    grounded |= set(cond_binds(it[1]))
+                elif it[0] == "gen":
+                    grounded.add(it[1])
+                elif it[0] == "agg" and it[1]:
+                    grounded.add(it[1])
+    return False
+
+
+def shape_attached_let_simple_join(p):
+    """the first clause of a rule carries an attached `let` (and no `if let`), the next item is a clause that uses the
+    let-bound variable as a plain argument: before /repo deeea84 ascent_hir kept such a rule a reorderable simple join
+    and the generated code did not compile (sugared and expanded alike).  Counted in the distribution."""
+    for r in p["rules"]:
+        for conj in disj_product(r["body"]):
+            f = next((k for k, it in enumerate(conj) if it[0] == "clause"), None)
+            if f is None or f + 1 >= len(conj) or conj[f + 1][0] != "clause":
+                continue
+            c1, c2 = conj[f], conj[f + 1]
+            lets = {c[1] for c in c1[3] if c[0] == "let"}
+            if not lets or any(c[0] == "iflet" for c in c1[3]) or any(t[0] == "p" for t in c1[2]):
+                continue
+            if lets & {t[1] for t in c2[2] if t[0] == "v"}:
+                return True
+    return False
